@@ -248,6 +248,43 @@ def position_table():
     return ctxs, refs
 
 
+STAR_KINDS = ["field", "arith", "func", "case", "sub", "basic", "cplx", "isnull", "between", "in", "vali", "lit", "tuple",
+              "not", "bitand", "all", "cast"]
+
+
+def star_programs():
+    """select-list programs around '*' / table stars: every modelled kind after and before '*', after and before t.* and the
+    table-less Star(); fields of table t / u / no table"""
+    T, U = ["t", [], None], ["u", [], None]
+    progs = []
+    for k in STAR_KINDS:
+        x = simple_top(k, SENT)
+        progs += [[["*"], x], [x, ["*"]], [["star", T], x], [x, ["star", T]], [["star", None], x], [x, ["star", None]]]
+    for tb in (None, T, U):
+        f = F("a", SENT, tb)
+        progs += [[["*"], f], [f, ["*"]], [["star", T], f], [f, ["star", T]], [["star", None], f], [f, ["star", None]],
+                  [f, ["star", T], ["func", "F", [f], "zqB"], ["*"], f, ["func", "G", [], "zqC"]]]
+    progs += [[["*"], ["star", T]], [["star", T], ["*"]], [["star", T], ["star", T]], [["star", T], ["star", U], F("a", None, U)],
+              [["*"], ["*"], ["func", "F", [], SENT]]]
+    return progs
+
+
+def sitem_coq(i):
+    return "SStar" if i[0] == "*" else "(ST %s)" % coq_term(i)
+
+
+def star_rows():
+    from pypika import Query, Table
+    rows = []
+    for prog in star_programs():
+        memo = {}
+        q = Query.from_(Table("t")).join(Table("u")).cross().select(*[("*" if i[0] == "*" else bld(i, memo)) for i in prog])
+        texts = [x.get_sql(quote_char='"', secondary_quote_char="'", with_alias=True, with_namespace=True, subquery=True)
+                 for x in q._selects]
+        rows.append((prog, texts))
+    return rows
+
+
 def extract():
     import pypika.enums as E
     rows, fam = alias_rows()
@@ -255,7 +292,9 @@ def extract():
            "From PV Require Import Base Crit gen.TermsTable Terms.", "",
            "Inductive qclass := " + " | ".join(c for c, _ in CLASSES) + ".",
            "Inductive pos := " + " | ".join(c for c, _ in POSITIONS) + ".",
-           "Inductive dir := DAsc | DDesc.", ""]
+           "Inductive dir := DAsc | DDesc.",
+           "(* an argument of select(): the string '*' or a term (Star objects are terms) *)",
+           "Inductive sitem := SStar | ST (t : term).", ""]
     out.append("Definition all_qclasses : list qclass := %s." % L([c for c, _ in CLASSES]))
     out.append("Definition dir_text (d : dir) : string := match d with DAsc => %s | DDesc => %s end."
                % (S(E.Order.asc.value), S(E.Order.desc.value)))
@@ -285,6 +324,10 @@ def extract():
     for ix, name in enumerate(("x_group_ref", "x_order_ref", "x_group_ref_unselected", "x_order_ref_unselected")):
         out.append("Definition %s (c : qclass) : bool := match c with %s end."
                    % (name, " ".join("| %s => %s" % (cq, B(refs[cq][ix])) for cq, _ in CLASSES)))
+    # what select() leaves in _selects around stars: program -> texts of the surviving items
+    out.append("Definition x_star_rows : list (list sitem * list string) := [")
+    out.append(";\n".join("  (%s, %s)" % (L([sitem_coq(i) for i in prog]), L([S(t) for t in texts])) for prog, texts in star_rows()))
+    out.append("].")
     return {"gen/C13Table.v": "\n".join(out) + "\n"}
 
 
@@ -306,6 +349,8 @@ RULE = ("(a) terms of the shared `terms` family with aliases at every level (p=0
         "blank inside, mixed case), judged by a renaming-commutes oracle; (g) half of the flat statements with GROUP BY / ORDER BY "
         "are built by a random interleaving of single select()/where()/groupby()/having()/orderby() calls with str() of the "
         "intermediate builder after random calls (the model is a function of the final spec: a difference is a state leak). "
+        "(h) select lists with '*' / t.* / Star() before or after aliased terms (what survives is modelled by normalize_sel, "
+        "tied to select() by extracted star programs), the terms re-used in GROUP BY / ORDER BY. "
         "Otherwise alias names are sentinels (zq..) so the oracle can count "
         "them per clause. Non-trivial = some aliased object sits in a non-select position or inside another expression, or a "
         "GROUP BY/ORDER BY element is aliased; distinct by structural hash.")
@@ -533,7 +578,10 @@ def build_query(case, memo, plain=False):
         q = q.join(u).on(bld(case["on"], memo))
     prog = case.get("prog") if not plain else None
     if prog is None:
-        q = q.select(*[bld(x, memo) for x in case["sel"]])
+        if case.get("selprog") is not None:     # the arguments of select() incl. the string '*' and Star objects
+            q = q.select(*[("*" if i[0] == "*" else bld(i, memo)) for i in case["selprog"]])
+        else:
+            q = q.select(*[bld(x, memo) for x in case["sel"]])
         if case.get("where") is not None:
             q = q.where(bld(case["where"], memo))
         if case.get("group"):
@@ -593,7 +641,9 @@ def to_coq(case, outcome):
         order = L(["(%s, %s)" % (coq_term(x), "None" if d is None else "(Some %s)" % ("DAsc" if d == "asc" else "DDesc"))
                    for x, d in case.get("order") or []])
         return ("(CStmt {| s_cls := %s; s_sel := %s; s_on := %s; s_where := %s; s_group := %s; s_having := %s; s_order := %s |} %s)"
-                % (CLS_COQ[case["cls"]], L([coq_term(x) for x in case["sel"]]), o(case.get("on")), o(case.get("where")),
+                % (CLS_COQ[case["cls"]],
+                   ("(normalize_sel %s)" % L([sitem_coq(i) for i in case["selprog"]])) if case.get("selprog") is not None
+                   else L([coq_term(x) for x in case["sel"]]), o(case.get("on")), o(case.get("where")),
                    L([coq_term(x) for x in case.get("group") or []]), o(case.get("having")), order, S(text)))
     except ValueError:
         return None          # contains a kind the Coq term model does not have
@@ -1050,19 +1100,29 @@ def oracle(case, outcome):
             out += judge_element(spec, seg, "values", conv, memo, set(), False, {})
         return out
     sel_parts = split_top(segs["select"])
-    if len(sel_parts) != len(case["sel"]):
-        return leak
-    selected_names = {alias_of(x) for x in case["sel"] if alias_of(x)}
-    # which names does the RENDERED select list define (in any lexical form)?
-    select_defs = {}
-    for spec, seg in zip(case["sel"], sel_parts):
-        a = alias_of(spec)
-        if a and SENT_RE.fullmatch(a):
-            if any(o[1] == len(seg) for o in occurrences(seg, a)):
-                select_defs[a] = True
-            select_defs.setdefault("#cls:" + a, owner_name(bld(spec, memo)))
-    for spec, seg in zip(case["sel"], sel_parts):
-        out += judge_element(spec, seg, "select", conv, memo, selected_names, False, select_defs)
+    if case.get("selprog") is not None:
+        # select('*', ...) / table stars drop some arguments: "the alias is in the select list" is read off the RENDERED list
+        # (an item that ends with a sentinel alias defines it); the items themselves are judged by the star-free cases
+        selected_names, select_defs = set(), {}
+        for seg in sel_parts:
+            m = re.search(r"(zq[0-9A-Za-z]+)[\"`]?$", seg)
+            if m and m.group(1) in {alias_of(x) for x in case["sel"]}:
+                selected_names.add(m.group(1))
+                select_defs[m.group(1)] = True
+    else:
+        if len(sel_parts) != len(case["sel"]):
+            return leak
+        selected_names = {alias_of(x) for x in case["sel"] if alias_of(x)}
+        # which names does the RENDERED select list define (in any lexical form)?
+        select_defs = {}
+        for spec, seg in zip(case["sel"], sel_parts):
+            a = alias_of(spec)
+            if a and SENT_RE.fullmatch(a):
+                if any(o[1] == len(seg) for o in occurrences(seg, a)):
+                    select_defs[a] = True
+                select_defs.setdefault("#cls:" + a, owner_name(bld(spec, memo)))
+        for spec, seg in zip(case["sel"], sel_parts):
+            out += judge_element(spec, seg, "select", conv, memo, selected_names, False, select_defs)
     for clause in ("on", "where", "having"):
         if case.get(clause) is not None:
             out += judge_element(case[clause], segs[clause], "non-select", conv, memo, selected_names, False, select_defs)
@@ -1256,6 +1316,13 @@ def gen_stmt(rng, tier):
         case["order"] = [[element(), rng.choice([None, "asc", "desc"])] for _ in range(rng.choice([1, 1, 2, 3]))]
     if rng.random() < 0.5 and (case["group"] or case["order"]):
         case["prog"] = random_prog(rng, case)
+    elif rng.random() < 0.3 and all(modelled(x) for x in sel):
+        # '*' / a table star / Star() somewhere among the arguments of select()
+        sp = list(sel)
+        for _ in range(rng.choice([1, 1, 2])):
+            sp.insert(rng.randrange(len(sp) + 1), rng.choice([["*"], ["*"], ["star", T_T], ["star", None]]
+                                                             + ([["star", T_U]] if joined else [])))
+        case["selprog"] = sp
     return case
 
 
@@ -1517,6 +1584,8 @@ def map_case_aliases(case, f):
         c["q"] = _map_q_aliases(c["q"], f)
     else:
         c["sel"] = [mt(x) for x in c["sel"]]
+        if c.get("selprog") is not None:
+            c["selprog"] = [(i if i[0] == "*" else mt(i)) for i in c["selprog"]]
         for k in ("on", "where", "having"):
             if c.get(k) is not None:
                 c[k] = mt(c[k])
@@ -1787,6 +1856,24 @@ def render_grid(classes=("Query", "OracleQuery", "PostgreSQLQuery")):
     return out
 
 
+def star_grid(classes=("Query", "OracleQuery", "SnowflakeQuery")):
+    """'*' / t.* / Star() before and after every aliased kind in the select list, the term re-used in GROUP BY and ORDER BY"""
+    out = []
+    for cls in classes:
+        for k in [x for x in STAR_KINDS if x != "field"] + ["agg"]:
+            x = simple_top(k, "zqA")
+            for star in (["*"], ["star", T_T], ["star", None]):
+                for sp in ([star, x], [x, star], [F("a", "zqB", T_T), star, x]):
+                    c = stmt(cls, sel=[i for i in sp if i[0] not in ("*", "star")], group=[x], order=[[x, "desc"]])
+                    out.append(dict(c, selprog=sp))
+        for tb in (None, T_T):
+            f = F("a", "zqA", tb)
+            for star in (["*"], ["star", T_T], ["star", None]):
+                for sp in ([star, f], [f, star]):
+                    out.append(dict(stmt(cls, sel=[f], group=[f], order=[[f, None]]), selprog=sp))
+    return out
+
+
 def corpus():
     sc = dict(tf.STR_CTX)
     w_null = ["isnull", F("a"), "n"]
@@ -1808,7 +1895,7 @@ def corpus():
         proved.append(stmt(cls, sel=[ex_m, ex_s], on=["basic", "eq", F("a"), F("b"), None],
                            where=["basic", "gt", ex_m, I(0), None], group=[ex_m], having=["basic", "gt", ex_s, I(1), None],
                            order=[[ex_m, "desc"], [ex_s, None], [F("z", "zz"), None]]))
-    out = proved + grid_cases(("Query",)) + nested_grid() + collide_grid() + render_grid()
+    out = proved + grid_cases(("Query",)) + nested_grid() + collide_grid() + render_grid() + star_grid()
     # alias quoting of every consuming kind in the classes whose convention differs (sentinel names)
     for cls in ("SnowflakeQuery", "PostgreSQLQuery", "OracleQuery", "MSSQLQuery", "ClickHouseQuery", "MySQLQuery"):
         for k in CONSUMING + ["an", "isnull", "cplx", "nega"]:
@@ -1892,6 +1979,8 @@ def histogram(cases):
             inc("intermediate-renders", sum(1 for st in c["prog"] if st[2]))
         if c.get("collide"):
             inc("colliding-alias-values")
+        if c.get("selprog") is not None:
+            inc("select-list-with-star")
         if c["kind"] == "q":
             from harness import queries_family as qf
             for k_, v_ in qf.shape(c["q"]).items():
@@ -1933,7 +2022,7 @@ def targeted_search(rng, broken, mism_cases):
         out.append(gen_stmt(rng, "quick"))
     for _ in range(1500):
         out.append(gen_nested(rng, "quick"))
-    out += collide_grid([py for _, py in CLASSES]) + render_grid([py for _, py in CLASSES])
+    out += collide_grid([py for _, py in CLASSES]) + render_grid([py for _, py in CLASSES]) + star_grid([py for _, py in CLASSES])
     for _ in range(1500):
         out.append(gen_collide(rng, "quick"))
     return out
